@@ -199,6 +199,21 @@ def install():
             return orig(x, *a, **k)
         return f
 
+    # ---- reductions over an empty / all-int object array return a Python int (float64 gives 0.0 / 1.0)
+    def _empty_red(name):
+        @stub(onp, name, "a reduction of an object array that comes out as a Python int (empty array: 0 / 1; all-int entries such as the zeros np.triu fills in) is returned as the same exact rational")
+        @takes_orig
+        def red(orig):
+            def f(a, *args, **kwargs):
+                r = orig(a, *args, **kwargs)
+                if type(r) is int and isinstance(a, onp.ndarray) and a.dtype == object:
+                    return S(Fr(r))
+                return r
+            return f
+
+    _empty_red("sum")
+    _empty_red("prod")
+
     # ---- ufuncs without an object loop
     def _bin(name, contract, fn):
         @stub(onp, name, contract)
